@@ -581,7 +581,7 @@ impl EntryStoreTrait for DirParts {
         for (name, offset, count) in &self.indexes {
             directory_pack.create_index(
                 name,
-                Default::default(),
+                free_bytes::<4>(*offset as u64 + 17, "index-free", *count as u64).into(),
                 0.into(),
                 id,
                 (*count).into(),
@@ -730,6 +730,32 @@ pub fn plan_model(logical: &Logical) -> Model {
     model
 }
 
+/// Seeded, non-zero "free data" (application bytes the format carries in pack headers, index
+/// headers and, per pack, in the manifest): defaults of all zeros would make damage to them
+/// invisible to every observation.
+pub fn free_bytes<const N: usize>(seed: u64, tag: &str, k: u64) -> [u8; N] {
+    let mut b = [0u8; N];
+    Rng::derive(seed, tag, k).fill(&mut b);
+    for (i, x) in b.iter_mut().enumerate() {
+        if *x == 0 {
+            *x = 1 + i as u8;
+        }
+    }
+    b
+}
+
+/// The manifest's per-pack free data (variable length, one of them empty).
+pub fn pack_manifest_free(seed: u64, p: u16) -> Vec<u8> {
+    if p == 2 {
+        return vec![];
+    }
+    let mut rng = Rng::derive(seed, "manifest-pack-free", p as u64);
+    let n = rng.range(1, 40) as usize;
+    let mut v = format!("fd{p}:").into_bytes();
+    v.extend(rng.bytes(n));
+    v
+}
+
 /// Build the container described by `logical` into `dir` (which must exist and be empty
 /// apart from other containers' files); `name` is the base name of the produced files.
 pub fn build(logical: &Logical, dir: &Path, name: &str, opts: &BuildOpts) -> Result<Built, DynErr> {
@@ -787,7 +813,7 @@ fn build_inner(
                     utf8(&path),
                     jbk::PackId::from(p),
                     vendor,
-                    Default::default(),
+                    free_bytes::<24>(logical.aux_seed, "content-pack-free", p as u64).into(),
                     logical.comp.to_jbk(),
                     Arc::clone(&opts.progress),
                 )?;
@@ -808,13 +834,17 @@ fn build_inner(
                         .into());
                     }
                 }
-                let (_file, data) = cpc.finalize()?;
+                let (_file, mut data) = cpc.finalize()?;
+                data.free_data = pack_manifest_free(logical.aux_seed, p);
                 pack_datas.push((data, path.clone()));
                 pack_files.insert(p, path);
             }
             let parts = Box::new(make_dir_parts(logical, &mut model));
-            let mut dpc =
-                creator::DirectoryPackCreator::new(jbk::PackId::from(0), vendor, Default::default());
+            let mut dpc = creator::DirectoryPackCreator::new(
+                jbk::PackId::from(0),
+                vendor,
+                free_bytes::<24>(logical.aux_seed, "directory-pack-free", 0).into(),
+            );
             parts.finalize(&mut dpc);
             let dir_path = dir.join(format!("{name}.jbkd"));
             let mut dir_file = std::fs::OpenOptions::new()
@@ -823,10 +853,14 @@ fn build_inner(
                 .create(true)
                 .truncate(true)
                 .open(&dir_path)?;
-            let dir_data = dpc.finalize()?.write(&mut dir_file)?;
+            let mut dir_data = dpc.finalize()?.write(&mut dir_file)?;
+            dir_data.free_data = pack_manifest_free(logical.aux_seed, 0);
             drop(dir_file);
 
-            let mut mpc = creator::ManifestPackCreator::new(vendor, Default::default());
+            let mut mpc = creator::ManifestPackCreator::new(
+                vendor,
+                free_bytes::<24>(logical.aux_seed, "manifest-pack-free-header", 0).into(),
+            );
             let loc = |s: String| if logical.opts.empty_locations { String::new() } else { s };
             let mut dir_data = Some(dir_data);
             if !logical.opts.dir_not_first {
